@@ -19,15 +19,17 @@ def _run_chunk(items):
         exp = _G['expected'][key]
         try:
             got = outline_real.run_outline(_G['outlines'][oi - 1], _G['oracles'][ri - 1], crash_at=_G['crash'][ci - 1],
-                                           medium=_G['medium'])
+                                           medium=_G['medium'], lag=_G.get('lag', 0), loaders=_G.get('loaders', 'default'))
         except Exception as e:  # noqa
             out.append((key, 'implementation raised %r' % (e,), None))
             continue
-        want_units, want_res, want_restores = exp
+        want_units, want_res, want_restores, want_waits = exp
         if got['state'] != 'FINISHED':
             out.append((key, 'final state %s (%s), specification: FINISHED' % (got['state'], got['exception']), got))
         elif got['units'] != want_units:
             out.append((key, 'call trace differs', got))
+        elif got['waits'] != want_waits:
+            out.append((key, 'units ending in a wait %s, specification %s' % (got['waits'], want_waits), got))
         elif got['result'] != want_res:
             out.append((key, 'result %s, specification %s' % (got['result'], want_res), got))
         elif got['roundtrip_bad']:
@@ -38,8 +40,8 @@ def _run_chunk(items):
 
 
 def _tlc_chunk(args):
-    name, k, outlines, oracles, crash_sets, cfgx, timeout, offset = args
-    tla, cfg = om.mc_module('MC_%s_%d' % (name, k), outlines, oracles, crash_sets, cfg_extra=cfgx)
+    name, k, outlines, oracles, crash_sets, cfgx, timeout, offset, lag = args
+    tla, cfg = om.mc_module('MC_%s_%d' % (name, k), outlines, oracles, crash_sets, cfg_extra=cfgx, lag=lag)
     with tlc.Workdir() as wd:
         wd.write('MC_%s_%d.tla' % (name, k), tla)
         wd.write('MC_%s_%d.cfg' % (name, k), cfg)
@@ -54,13 +56,13 @@ class _Res:
 
 
 def model_and_replay(name, outlines, oracles, crash_sets=((),), invariants=(), medium='pickle', procs=None, timeout=3000,
-                     chunk=120):
+                     chunk=120, lag=0, loaders='default'):
     """TLC on the family (invariants + one Report line per finished behaviour), then every behaviour on the real code.
     The family is checked in chunks (TLC's initial-state generation is quadratic in the size of the constant)."""
     from concurrent.futures import ThreadPoolExecutor
     cfgx = ''.join('INVARIANT %s\n' % i for i in invariants) + 'INVARIANT Report\n'
     t0 = time.time()
-    jobs = [(name, k, outlines[i:i + chunk], oracles, crash_sets, cfgx, timeout, i)
+    jobs = [(name, k, outlines[i:i + chunk], oracles, crash_sets, cfgx, timeout, i, lag)
             for k, i in enumerate(range(0, len(outlines), chunk))]
     with ThreadPoolExecutor(max_workers=8) as ex:
         parts = list(ex.map(_tlc_chunk, jobs))
@@ -77,14 +79,14 @@ def model_and_replay(name, outlines, oracles, crash_sets=((),), invariants=(), m
     t1 = time.time()
     expected = {}
     for v in reports:
-        expected[(v[1], v[2], v[3])] = (v[4], v[5], v[6])
+        expected[(v[1], v[2], v[3])] = (v[4], v[5], v[6], v[7])
     out = {'tlc': res, 'tlc_s': t1 - t0, 'behaviours': len(expected), 'mismatches': [], 'expected': expected}
     if res.violated or not res.ok:
         return out
     n_expected = len(outlines) * len(oracles) * len(crash_sets)
     if len(expected) != n_expected:
         raise tlc.MachineryError('expected %d reports from TLC, got %d' % (n_expected, len(expected)))
-    _G.update(outlines=outlines, oracles=oracles, crash=[sorted(c) for c in crash_sets], expected=expected, medium=medium)
+    _G.update(outlines=outlines, oracles=oracles, crash=[sorted(c) for c in crash_sets], expected=expected, medium=medium, lag=lag, loaders=loaders)
     keys = sorted(expected)
     procs = procs or min(16, os.cpu_count() or 1)
     n = max(1, len(keys) // (procs * 4))
